@@ -334,6 +334,27 @@ def read_fault_cases():
     return out
 
 
+def answer_check_cases(rng=None, n_random=0):
+    """The library's own packet_received listener Crazyflie._check_for_answers with pending answer patterns, and another
+    thread sending a request with an expected reply (a new pattern) / firing a retry timer at every line-level preemption
+    point inside it, for packets that match a pending pattern and packets that do not."""
+    regs = [[2, 255, 0, 0, 1], [2, 255, 0, 0, 2], [3, 255, 0, 0, 3]]
+    out = []
+    for pending in ([[0x20, [1], [0]]], [[0x20, [1], [0]], [0x20, [2], [0, 0]], [0x30, [3], [5]]]):
+        for k in range(1, 16):
+            for op in (['sendexp', 0x20, [k], [9, k]], ['retry', 0]):
+                out.append({'regs': [list(r) for r in regs], 'alls': [ALL_BASE], 'pkts': [0x2C, 0x3C, 0x2C], 'plens': [2, 1, 0],
+                            'beh': {}, 'answers': {'pending': pending, 'inloop': {'%d:%d' % (n, k): [op] for n in (0, 1)}}})
+    for _ in range(n_random):
+        c = gen_case(rng, oracle=True)
+        c.pop('ext', None)
+        c['answers'] = {'pending': [[rng.choice(c['pkts']) & 0xF3, [i], [rng.randrange(3)]] for i in range(rng.randint(1, 3))],
+                        'inloop': {'%d:%d' % (rng.randrange(len(c['pkts'])), rng.randint(1, 14)):
+                                   [['sendexp', 0x20, [j], [50 + j, rng.randrange(256)]]] for j in range(rng.randint(1, 4))}}
+        out.append(c)
+    return out
+
+
 def enum_cases(depth):
     """Small-scope enumeration: registrations a,b,c(,d) on one port, each callback's first script drawn from an
     alphabet of registry operations; one or two packets."""
@@ -409,6 +430,7 @@ def tie(ctx):
     cases += read_fault_cases()
     for _ in range(ctx.scale(200, 4000)):
         cases.append(_with_reads(ctx.rng, gen_case(ctx.rng, oracle=ctx.rng.random() < 0.3)))
+    cases += answer_check_cases(ctx.rng, ctx.scale(60, 1200))
     terms, exp, ress = [], [], []
     for c in cases:
         res = drv.run_case(c)
@@ -436,7 +458,7 @@ def tie(ctx):
         dis.append({'what': 'total disagreements', 'count': nd})
     seen = set()
     nontriv = 0
-    dist = {'cases': len(cases), 'cases_with_failing_reads': 0, 'loops_ended_by_a_failing_read': 0, 'cases_with_other_thread_operations': 0, 'other_thread_hand_overs': 0, 'max_raises_by_one_callback': 0, 'cases_with_10_or_more_raises_by_one_callback': 0, 'dispatcher_died': 0, 'with_raise': 0, 'with_dup_regs': 0, 'invocations': 0,
+    dist = {'cases': len(cases), 'cases_with_another_thread_inside_the_answer_check': sum(1 for c in cases if c.get('answers')), 'cases_with_failing_reads': 0, 'loops_ended_by_a_failing_read': 0, 'cases_with_other_thread_operations': 0, 'other_thread_hand_overs': 0, 'max_raises_by_one_callback': 0, 'cases_with_10_or_more_raises_by_one_callback': 0, 'dispatcher_died': 0, 'with_raise': 0, 'with_dup_regs': 0, 'invocations': 0,
             'by_regs': {}, 'by_packets': {}}
     for c, r in zip(cases, ress):
         h = runner.sha(c)
@@ -501,6 +523,8 @@ class Spec:
 
     def before_op(self, op):
         k = op[0]
+        if k in ('sendexp', 'retry'):
+            return True                 # not a registry operation
         cur = self.cur if self.cur is not None else {'rem': set(), 'add': set(), 'arem': set(), 'aadd': set()}
         if k == 'raise':
             return not self.in_all_cb
@@ -604,6 +628,7 @@ def oracle(ctx, deep=False):
     cases += read_fault_cases()
     for _ in range(ctx.scale(2000, 40000) * (3 if deep else 1)):
         cases.append(_with_reads(ctx.rng, gen_case(ctx.rng, oracle=True)))
+    cases += answer_check_cases(ctx.rng, ctx.scale(200, 4000))
     for _ in range(ctx.scale(20000, 300000) * (3 if deep else 1)):
         cases.append(gen_case(ctx.rng, oracle=True))
     seen_cls = set()
@@ -658,6 +683,10 @@ def _shrink(f):
                 changed = True
             else:
                 j += 1
+        for key in list((case.get('answers') or {}).get('inloop') or {}):
+            a2 = dict(case['answers'], inloop={k: v for k, v in case['answers']['inloop'].items() if k != key})
+            if attempt(dict(case, answers=a2)):
+                changed = True
         for key in list(case.get('ext') or {}):
             e2 = {k: v for k, v in case['ext'].items() if k != key}
             if attempt(dict(case, ext=e2)):
